@@ -86,6 +86,9 @@ class WGen:
         return A.prog([], [f]), kind
 
     def value(self, t):
+        if t["k"] == "uint":
+            # unsigned arguments on both sides of the sign bit
+            return self.r.choice([0, 1, 3, 100, 2 ** 31 - 1, 2 ** 31, 4000000000, 2 ** 32 - 1])
         if t is INT or t["k"] == "int":
             return self.r.choice([0, 1, -1, 2, 7, -8, 63, 64, 100, 1000, -1000])
         n, e = self.r.choice(FLIT + [(0, 0), (7, 1), (9, 2)])
@@ -113,6 +116,11 @@ def structural():
             out.append((f"s{nf}x{npar}", A.prog([], fs)))
     for c in [0, 1, -1, 63, 64, 65, -64, -65, 127, 128, 8191, 8192, -8192, -8193, 1048576, 134217727, 134217728, 1073741823, -1073741824]:
         out.append((f"c{c}", A.prog([], [A.func("f0", [("p0", INT)], INT, A.block([A.ret(B("+", V("p0"), L(c)))]), True)])))
+    # unsigned parameters: the unsigned variants of division and comparison
+    for op in ("<", ">", "==", "/", "+", "*"):
+        for k in range(3):
+            out.append((f"u{op}{k}", A.prog([], [A.func("f0", [("p0", A.UINT), ("p1", A.UINT)], INT if op in "<>==" else A.UINT,
+                                                        A.block([A.ret(B(op, V("p0"), V("p1")))]), True)])))
     for n, e in [(0, 0), (1, 0), (1, 1), (3, 2), (255, 3), (1, 10), (16777215, 0)]:
         out.append((f"fc{n}_{e}", A.prog([], [A.func("f0", [("p0", FLOAT)], FLOAT, A.block([A.ret(B("+", V("p0"), A.lit_f(n, e)))]), True)])))
     return out
